@@ -40,3 +40,17 @@ Proof.
   - destruct (jenc_c (fst bl) (snd bl)) as [j| |]; try discriminate H1. eauto.
   - destruct (kenc_c (fst bl) (snd bl)) as [j| |]; try discriminate H2. eauto.
 Qed.
+
+Definition knownb (reg : registry) (ts : list ty) : bool :=
+  forallb (fun t => is_some (rm_lookup reg t)) ts.
+Lemma knownb_known : forall reg ts, knownb reg ts = true -> Forall (fun t => rm_lookup reg t <> None) ts.
+Proof.
+  intros reg ts H. apply Forall_forall. intros t Hin. unfold knownb in H. rewrite forallb_forall in H.
+  specialize (H t Hin). destruct (rm_lookup reg t); [discriminate|discriminate H].
+Qed.
+Definition defs_okb (reg : registry) (v : val) : bool := knownb reg (def_ty v ++ boxed_defs v).
+Lemma defs_okb_ok : forall reg v, defs_okb reg v = true -> defs_ok reg v.
+Proof. intros reg v H. unfold defs_ok, known. now apply knownb_known. Qed.
+Definition defs_registeredb (reg : registry) (v : val) : bool := knownb reg (defs_of v).
+Lemma defs_registeredb_ok : forall reg v, defs_registeredb reg v = true -> defs_registered reg v.
+Proof. intros reg v H. unfold defs_registered. now apply knownb_known. Qed.
